@@ -324,7 +324,9 @@ var ddlTemplates = []string{"CREATE TABLE t_%d (a int)", "ALTER TABLE t_%d ADD C
 var inTxDDL = []string{"CREATE TEMPORARY TABLE tmp_%d (a int)", "DROP TEMPORARY TABLE IF EXISTS tmp_%d", "SET @in_tx_%d = 1", "create temporary table t%d like t"}
 var dmlTemplates = []string{"INSERT INTO t VALUES (%d)", "UPDATE t SET a = %d", "DELETE FROM t WHERE a = %d", "insert into t select %d"}
 var unknownStmts = []string{"SAVEPOINT sp1", "RELEASE SAVEPOINT sp1", "GRANT ALL ON *.* TO u", "REVOKE ALL ON *.* FROM u",
-	"FLUSH TABLES", "ANALYZE TABLE t", "XA START 'x'", "XA END 'x'", "OPTIMIZE TABLE t", "savepoint a", "REPAIR TABLE t"}
+	"FLUSH TABLES", "ANALYZE TABLE t", "XA START 'x'", "XA END 'x'", "OPTIMIZE TABLE t", "savepoint a", "REPAIR TABLE t",
+	// undoing part of an open transaction does not end it (logged when a non-transactional table was touched)
+	"ROLLBACK TO `sp1`", "ROLLBACK TO SAVEPOINT sp1", "rollback to a", "Rollback\tTo sp1"}
 
 // UnknownEventTypes are event types the streamer has no case for.
 var UnknownEventTypes = []byte{ev.Stop, ev.UserVar, ev.Incident, ev.Ignorable, ev.TransactionCtx, ev.ViewChange, ev.XAPrepare, 39, 40, 41, ev.StartV3, ev.AppendBlock}
@@ -383,6 +385,14 @@ func (b *Builder) Unit(kind hist.UnitKind) hist.Unit {
 		if r.Chance(1, 3) {
 			w := firstWord(u.SQL)
 			u.SQL = Casing(r, w) + u.SQL[len(w):]
+		}
+		if r.Chance(1, 4) {
+			// statements are logged as the client wrote them: the keyword may be
+			// followed by a tab or a line break instead of a blank
+			w := firstWord(u.SQL)
+			if len(w) < len(u.SQL) {
+				u.SQL = w + []string{"\t", "\n", "\r\n", "  "}[r.Intn(4)] + u.SQL[len(w)+1:]
+			}
 		}
 		u.EndTS = b.TS()
 	case hist.StmtDML:
